@@ -390,9 +390,13 @@ def r6(ctx, R):
             kinds = []
             for v, n in sts:
                 st = ctx.m.enclosing_stmt(n) if not isinstance(n, ast.stmt) else n
-                kinds.append("blanked" if _blanked(v) else "raw" if raw(v, st) else "other")
+                cut = isinstance(v, ast.Subscript) and isinstance(v.slice, ast.Slice) and isinstance(v.slice.lower, ast.Constant) and isinstance(v.slice.lower.value, int) and v.slice.lower.value > 0 and v.slice.upper is None and raw(v.value, st)
+                kinds.append("blanked" if _blanked(v) else "raw" if raw(v, st) else "cut" if cut else "other")
             where = f"{name} (fixed-form arm)"
-            if "blanked" in kinds:
+            if "cut" in kinds:
+                bad = next(n for (v, n), k_ in zip(sts, kinds) if k_ == "cut")
+                R.violation("C14.R6", f.short, where, loc(f, bad), f"a continuation line is stored into {name} with its label/marker columns cut off instead of blanked: the statement text no longer has the columns of the source line, so entities declared on continuation lines are located that many columns too far left, and a continuation that starts in column 7 is fused with the last token of the line before it (`DOUBLE PRECISION` / `     &TOTAL` -> `DOUBLE PRECISIONTOTAL`), unlike the free-form twin")
+            elif "blanked" in kinds:
                 R.ok("C14.R6", f.short, where, loc(f, sts[0][1]), f"stores: {kinds}")
             elif kinds and all(k == "raw" for k in kinds):
                 R.violation("C14.R6", f.short, where, loc(f, sts[0][1]), f"only unmodified buffer lines are stored into {name}: a statement continued over three or more fixed-form lines is assembled with the continuation marker of the middle lines inside the code text (`obj%` / `     &  sub%` / `     &  member` -> `obj%&  sub%member`), unlike its free-form twin")
